@@ -101,6 +101,15 @@ class NFA:
             self.eps[s].add(e)
             self.eps[b].add(a)
             self.eps[b].add(e)
+        elif k == 'auto':
+            # ('auto', n_states, start, accepts, [(src, atoms, dst), ...]) : an explicit automaton fragment
+            _, n_states, start, accepts, trans = r
+            ids = [self.new() for _ in range(n_states)]
+            self.eps[s].add(ids[start])
+            for a in accepts:
+                self.eps[ids[a]].add(e)
+            for src, atoms, dst in trans:
+                self.tr[ids[src]].append((frozenset(atoms), None, ids[dst]))
         else:
             raise ValueError(k)
         return s, e
@@ -117,8 +126,10 @@ class NFA:
         return frozenset(seen)
 
 
-def equivalent(r1, r2, alphabet):
-    """Return None if L(r1)==L(r2) else (witness list of atoms, which, provs)."""
+def equivalent(r1, r2, alphabet=None):
+    """Return None if L(r1)==L(r2) else (witness list of atoms, 'impl-only'|'ref-only').
+    Breadth-first over the product of the two subset automata, so the witness is a shortest one.  Per product state
+    the atoms are grouped by the set of transitions they enable (one representative per group)."""
     n1, n2 = NFA(), NFA()
     s1, e1 = n1.build(r1)
     s2, e2 = n2.build(r2)
@@ -138,19 +149,23 @@ def equivalent(r1, r2, alphabet):
                     w.append(atom)
                     cur = prev
                 return list(reversed(w)), ('impl-only' if acc1 else 'ref-only')
-            for atom in alphabet:
-                ta = set()
-                for x in a:
-                    for atoms, prov, t in n1.tr[x]:
-                        if atom in atoms:
-                            ta.add(t)
-                tb = set()
-                for x in b:
-                    for atoms, prov, t in n2.tr[x]:
-                        if atom in atoms:
-                            tb.add(t)
-                if not ta and not tb:
-                    continue
+            trans = []
+            for x in a:
+                for atoms, prov, t in n1.tr[x]:
+                    trans.append((atoms, 0, t))
+            for x in b:
+                for atoms, prov, t in n2.tr[x]:
+                    trans.append((atoms, 1, t))
+            groups = {}
+            for idx, (atoms, side, t) in enumerate(trans):
+                for atom in atoms:
+                    groups.setdefault(atom, []).append(idx)
+            by_sig = {}
+            for atom, idxs in groups.items():
+                by_sig.setdefault(tuple(idxs), atom)
+            for idxs, atom in sorted(by_sig.items(), key=lambda kv: str(kv[1])):
+                ta = set(trans[i][2] for i in idxs if trans[i][1] == 0)
+                tb = set(trans[i][2] for i in idxs if trans[i][1] == 1)
                 ns = (n1.closure(ta), n2.closure(tb))
                 if ns not in seen:
                     seen[ns] = (st, atom)
